@@ -60,9 +60,13 @@ MANIFEST = dict(
          "where the model does is established by the correspondence runs only (incl. non-ASCII and punctuated text). The amount and "
          "date text layers are PARAMETERS (AmtCodec / DateCodec): the round trip of an amount's text (C04) and of a date's text (C14) "
          "are hypotheses (`Lawful`: read(show a) = disp a on the codec's domain, texts free of ; @ = TAB and of leading/trailing "
-         "blanks) - satisfiable (Lemmas/PrintToy.lean gives a lawful instance) but not yet discharged by an instantiation with C04's "
-         "/ C14's functions; the driver renders with a concrete executable codec whose agreement with ledger is tested byte for byte, "
-         "not proved. Outside the model (run on the binary only): lot annotations, virtual costs (@), amount expressions, generated "
+         "blanks). They are DISCHARGED for ledger's own text layers as modelled by C04 and C14 (Lemmas/PrintInst.lean: ledgerCodec = "
+         "AmountText.printAmount / parseAmount + DateParse.formatDate / parseDate is Lawful, from C04's print_parse round trip and "
+         "C14.format_parse; C06.parse_render_ledger, C06.render_fixpoint_ledger_partial) on an explicit decidable domain (symbol "
+         "admitted by C04's SymOK, number within parse_quantity's buffer, printed text free of ; @ =, no negative display-zero, costs "
+         "with a finite expansion, years 1400..9999). The driver renders with its own small executable codec (compared with ledger "
+         "byte for byte on every case), not with C04's functions; a second lawful instance (Lemmas/PrintToy.lean) serves the "
+         "counterexamples. Outside the model (run on the binary only): lot annotations, virtual costs (@), amount expressions, generated "
          "postings, non-note metadata, zero amounts (printed as a bare 0; an all-zero transaction is omitted by print), empty `;` "
          "lines inside notes (dropped by print_note), --date-format/--columns options.",
     technique="Lean 4 proof (string-level round trip of a printer/reader pair, fold identity for equity) + pinned source text and "
@@ -372,6 +376,45 @@ def fixed_cases():
     return [copy.deepcopy(c) for c in cs]
 
 
+def assignment_cases(rng, n):
+    """balance assignments `Acct  = TARGET` whose amount ledger computes: exactly representable, and (every third case)
+    with more decimals than the display precision because an earlier elided amount came from a 3-decimal price."""
+    cs = []
+    for k in range(n):
+        c = rng.choice(["$", "EUR", "XY"])
+        dec = CM[c].dec
+        acct = "Assets:Assigned %d" % rng.randint(1, 3)
+        xs = []
+        total = Fraction(0)
+        day = 0
+        for _ in range(rng.randint(0, 3)):
+            q = Fraction(rng.randint(-50000, 50000), 10 ** dec)
+            if q == 0:
+                continue
+            total += q
+            day += rng.randint(0, 9)
+            xs.append(mk_xact(day, "payee %d" % rng.randint(1, 12), [mk_post(acct, q, c), mk_post("Equity:Adj")]))
+        if k % 3 == 0:
+            # an elided amount with dec+1 decimals: n AAA @ price (dec+1 decimals, last digit not 5) against the account
+            n_units = rng.choice([1, 3, 7])
+            last = rng.choice([1, 2, 3, 4, 6, 7, 8, 9])
+            price = Fraction(rng.randint(1, 999) * 10 + last, 10 ** (dec + 1))
+            day += 1
+            xs.append(mk_xact(day, "fine", [mk_post("Expenses:Units", n_units, "AAA", cost=price, cc=c, cdec=dec + 1), mk_post(acct)]))
+            total -= price * n_units
+        target = Fraction(rng.randint(-90000, 90000), 10 ** dec)
+        if target == total or abs(target - total) * 10 ** dec < 1:
+            target += 1
+        day += rng.randint(1, 9)
+        x = mk_xact(day, "assign", [mk_post(acct, None, assert_=(target, c), computed=(target - total, c)), mk_post("Equity:Adj")],
+                    state=rng.choice([0, 0, 1]), note_lines=rng.choice([None, [" set balance"]]))
+        xs.append(x)
+        if rng.random() < 0.5:
+            xs.append(mk_xact(day + 3, "after", [mk_post(acct, Fraction(rng.randint(1, 9999), 10 ** dec), c), mk_post("Equity:Adj")]))
+        cs.append({"xacts": xs})
+    return cs
+
+
 def lot_cases(rng, n):
     """oracle-only stream (lot annotations are outside the Lean model): purchases and sales with {price}, {{total}},
     {=fixed}, [date], (tag) annotations, with and without @ / @@ costs; the balancing posting is elided."""
@@ -550,6 +593,23 @@ def observe(text):
 # ---------------------------------------------------------------- the oracle (independent of the Lean model)
 
 
+def group_rows(rows, j):
+    """rows grouped by transaction: each transaction has one `actual` row per written posting, then generated rows."""
+    if not j.get("xacts"):
+        return xact_groups(rows)
+    out = [[]]
+    xi, left = 0, len(j["xacts"][0]["posts"])
+    for r in rows:
+        if r["actual"] == "true":
+            while left == 0 and xi + 1 < len(j["xacts"]):
+                xi += 1
+                left = len(j["xacts"][xi]["posts"])
+                out.append([])
+            left -= 1
+        out[-1].append(r)
+    return [g for g in out if g]
+
+
 def xact_groups(rows):
     """group consecutive rows into transactions (same header fields)."""
     out = []
@@ -621,16 +681,20 @@ def oracle(j, obs):
             fails.append(("C06:print:posting-count", "J has %d postings, the printed text %d" % (len(rowsJ), len(rowsP))))
         else:
             asg = assigned_xact_indices(j)
-            # map rows to transactions by counting generated rows per transaction is fragile; use posting counts of J's rows
+            # row -> transaction index: every transaction has one `actual` row per written posting, followed by the
+            # generated rows finalize adds for the 2nd+ commodity of an elided amount
             bounds = []
-            gj = xact_groups(rowsJ)
-            k = 0
-            for gi, g in enumerate(gj):
-                for _ in g:
-                    bounds.append(gi)
+            xi, left = 0, (len(j["xacts"][0]["posts"]) if j["xacts"] else 0)
+            for r in rowsJ:
+                if r["actual"] == "true":
+                    while left == 0 and xi + 1 < len(j["xacts"]):
+                        xi += 1
+                        left = len(j["xacts"][xi]["posts"])
+                    left -= 1
+                bounds.append(xi)
             seen = set()
             for n, (a, b) in enumerate(zip(rowsJ, rowsP)):
-                in_asg = len(gj) == len(j["xacts"]) and bounds[n] in asg
+                in_asg = bounds[n] in asg
                 for fld in ("xdate", "date", "aux", "xstate", "state", "code", "payee", "dacct", "comm", "ccomm", "xnote", "note",
                             "Key", "Ref", "tag1", "tag2", "q", "cq"):
                     if a[fld] == b[fld]:
@@ -804,7 +868,7 @@ def equity_rows_for_model(rowsJ):
 def model_rows_from_ledger(rowsP, j):
     """ledger's reading of P in the driver's print.reparse row format (what can be observed of it)."""
     out = []
-    for g in xact_groups(rowsP):
+    for g in group_rows(rowsP, j):
         h = g[0]
         out.append(("H", str(day_of_text(h["xdate"])), "-" if h["aux"] == "-" else str(day_of_text(h["aux"])), h["xstate"],
                     "(" + h["code"] + ")" if h["code"] else "-", h["payee"], h["xnote"]))
@@ -1185,6 +1249,7 @@ def run(tier, seed):
                     ps[1]["amount"] = a
         aimed.append(j)
     process(ctx, aimed, "aimed")
+    process(ctx, assignment_cases(rng, 45 if quick else 900), "assignment")
     lots = lot_cases(rng, 60 if quick else 1500)
     for _ in lots:
         ctx.feature("stream:lot-annotations")
